@@ -26,10 +26,7 @@ func init() {
 }
 
 func knownC16(f *Failure) string {
-	// every wrapper forwards the inner Aho-Corasick position
-	if strings.Contains(f.API, "(aho-corasick)") && strings.HasSuffix(f.API, ".Find") {
-		return "KF-C16-01"
-	}
+	// KF-C16-01 (earliest-ending Aho-Corasick position) was repaired in 6644e06: nothing is excused any more.
 	return ""
 }
 
